@@ -169,3 +169,16 @@ Proof.
   unfold jwe_decrypt, aead_decrypt, aead_decrypt_g. cbn [je_prot je_key je_iv je_ct je_tag].
   rewrite <- app_assoc. reflexivity.
 Qed.
+
+(* dir / ECDH-ES: the key-management step of those modes satisfies the idealisation used above
+   with the empty encrypted key -- outright, not as a hypothesis *)
+Lemma unwrap_direct_ideal cek k c : unwrap_direct cek k = Ok c <-> (k = [] /\ c = cek).
+Proof.
+  unfold unwrap_direct. destruct k as [|x k]; cbn [is_nil]; split.
+  - intro H. inversion H. auto.
+  - intros [_ ->]. reflexivity.
+  - discriminate.
+  - intros [H _]. discriminate.
+Qed.
+Lemma unwrap_direct_total cek k s : unwrap_direct cek k <> Panic s.
+Proof. unfold unwrap_direct. destruct (is_nil k); discriminate. Qed.
